@@ -55,6 +55,8 @@ ASSUMPTIONS = [
     'file holds no SHORT section and FOFT/COFT/GOFT hold names',
     'a dictionary-backed section (LINEQ) with every value None is an absent section, not a deviation',
     'table values avoid double-rounding ties between the 8-digit echo and the 9-digit extra-precision field',
+    'the EOS name of MULTI is kept stripped in memory (read_multi strips it, the conversion code compares stripped '
+    'names): a blank-padded EOS name is a name shorter than its field, excluded like those',
     'INCON nseq/nadd are used as a pair (documented: "if they are not used they can be set to None or omitted")',
     'extra precision subsets: ELEME only together with ROCKS, CONNE only with ROCKS+ELEME (the companion file is '
     'read before the main file); with a mesh side file ELEME and CONNE are both or neither in extra precision '
@@ -174,7 +176,7 @@ def _generators(flavour):
 def _param(flavour):
     p = {'max_iterations': 8, 'print_level': 2, 'max_timesteps': 500, 'max_duration': 900, 'print_interval': 50,
          'option': '100210003400056000780009', 'texp': V(1), 'be': V(2, -1),
-         'tstart': V(3, 3), 'tstop': V(4, 9), 'const_timestep': -2.0, 'max_timestep': V(5, 7), 'print_block': BLOCKS[0],
+         'tstart': V(3, 3), 'tstop': V(4, 9), 'const_timestep': -2.0, 'max_timestep': V(5, 7), 'print_block': BLOCKS[3],
          'gravity': V(6), 'timestep_reduction': V(7), 'scale': V(8),
          'timestep': VL(9, 1, 2),
          'relative_error': V(9, -5), 'absolute_error': V(10), 'pivot': V(11, -1), 'upstream_weight': V(12),
@@ -484,6 +486,8 @@ def apply_dev(M, order, dev):
         return _apply_len(M, order, dev[1], dev[2])
     if kind == 'none':
         return _apply_none(M, order, dev[1], dev[2])
+    if kind == 'trail':
+        return _apply_trail(M, order, dev[1])
     if kind == 'rzdrop':
         if not M.get('MESHM') or M['MESHM'][0][0] != 'rz2d':
             return None
@@ -618,6 +622,71 @@ def _apply_len(M, order, what, n):
     return _prune(M, order)
 
 
+TRAIL = ['rock', 'gen_type', 'gen_name', 'z_precond', 'o_precond', 'minc_type', 'minc_dual', 'xyz_ntype',
+         'print_block', 'indom_rock']
+
+
+def _apply_trail(M, order, what):
+    """A text field of full width whose last characters are blanks ('DFLT ', 'rk1  ', 'AIR ')."""
+    M = copy.deepcopy(M)
+    if what in ('rock', 'indom_rock'):
+        if not M.get('ROCKS'):
+            return None
+        old, new = M['ROCKS'][0]['name'], 'rk1  '
+        if what == 'indom_rock' and old not in (M.get('INDOM') or {}):
+            return None
+        M['ROCKS'][0]['name'] = new
+        for b in M.get('ELEME') or []:
+            if b['rocktype'] == old:
+                b['rocktype'] = new
+        if M.get('INDOM') and old in M['INDOM']:
+            M['INDOM'] = dict((new if k == old else k, v) for k, v in M['INDOM'].items())
+    elif what in ('gen_type', 'gen_name'):
+        if not M.get('GENER'):
+            return None
+        g = M['GENER'][0]
+        if what == 'gen_type':
+            g['type'] = 'AIR '
+        else:
+            old, new = g['name'], 'inj  '
+            g['name'] = new
+            if M.get('SHORT') and 'generator' in M['SHORT']:
+                M['SHORT']['generator'] = [(a, new if (a == g['block'] and b == old) else b)
+                                           for a, b in M['SHORT']['generator']]
+    elif what == 'eos':
+        if 'eos' not in (M.get('MULTI') or {}):
+            return None
+        M['MULTI']['eos'] = 'EW  '
+    elif what in ('z_precond', 'o_precond'):
+        if not M.get('SOLVR'):
+            return None
+        M['SOLVR'][what] = what[0].upper() + ' '
+    elif what in ('minc_type', 'minc_dual', 'xyz_ntype'):
+        hit = False
+        mm = []
+        for typ, sec in M.get('MESHM') or []:
+            if typ == 'minc' and what != 'xyz_ntype':
+                sec[what[5:]] = 'ONE  ' if what == 'minc_type' else 'DFLT '
+                hit = True
+            elif typ == 'xyz' and what == 'xyz_ntype':
+                sec['sub'][0]['ntype'] = 'N '
+                hit = True
+            mm.append((typ, sec))
+        if not hit:
+            return None
+        M['MESHM'] = mm
+    elif what == 'print_block':
+        # a block name ending in a blank: (A3, I2) with a blank number field is not a TOUGH2 name; use a
+        # name whose number needs the repair instead
+        names = [b['name'] for b in M.get('ELEME') or []]
+        if 'aa1 2' not in names:
+            return None
+        M['PARAM']['print_block'] = 'aa1 2'
+    else:
+        raise ValueError(what)
+    return M, order
+
+
 # optional fields per record kind: (id, section, locator, fields)
 def none_targets(M):
     T = []
@@ -637,8 +706,10 @@ def none_targets(M):
         T.append(('param2', ('PARAM',), ['tstop', 'max_timestep', 'print_block', 'timestep_reduction', 'scale']))
         T.append(('param3', ('PARAM',), ['relative_error', 'absolute_error', 'pivot', 'upstream_weight',
                                          'newton_weight', 'derivative_increment']))
-        if len(P.get('default_incons') or []) >= 3:
-            T.append(('param4', ('PARAM',), ['default_incons:0', 'default_incons:1']))
+        n_inc = len(P.get('default_incons') or [])
+        if n_inc >= 3:
+            # every position but the last (a trailing None is an absent value, not a blank field)
+            T.append(('param4', ('PARAM',), ['default_incons:%d' % k for k in range(n_inc - 1)]))
     if M.get('RPCAP'):
         T.append(('rpcap1', ('RPCAP', 'rp'), ['type'] + ['parameters:%d' % k for k in range(7)]))
         T.append(('rpcap2', ('RPCAP', 'cp'), ['type'] + ['parameters:%d' % k for k in range(7)]))
@@ -670,11 +741,12 @@ def none_targets(M):
         k0 = list(M['INCON'].keys())[0]
         T.append(('incon1', ('INCON', k0), ['nseq+nadd', 'nadd', 'porosity']))
         if len(M['INCON'][k0]['variables']) >= 3:
-            T.append(('incon2', ('INCON', k0), ['variables:0', 'variables:1']))
+            T.append(('incon2', ('INCON', k0), ['variables:%d' % k
+                                                for k in range(len(M['INCON'][k0]['variables']) - 1)]))
     if M.get('INDOM'):
         k0 = list(M['INDOM'].keys())[0]
         if len(M['INDOM'][k0]) >= 3:
-            T.append(('indom2', ('INDOM', k0), [':0', ':1']))
+            T.append(('indom2', ('INDOM', k0), [':%d' % k for k in range(len(M['INDOM'][k0]) - 1)]))
     if M.get('SHORT'):
         T.append(('short', ('SHORT',), ['frequency']))
     for idx, (typ, sec) in enumerate(M.get('MESHM') or []):
@@ -753,6 +825,8 @@ def single_devs(flavour):
         for j in range(len(order)):
             devs.append(('move', S, j))
     devs.append(('end', 'ENDFI'))
+    for what in TRAIL:
+        devs.append(('trail', what))
     for n in range(0, 13):
         devs.append(('len', 'default_incons', n))
     for n in range(0, 18):
@@ -833,6 +907,11 @@ def _slots(dev):
         return set(['end'])
     if k in ('mesubset', 'rzdrop'):
         return set(['MESHM'])
+    if k == 'trail':
+        return set(['trail:' + dev[1], {'rock': 'ROCKS', 'indom_rock': 'ROCKS', 'gen_type': 'GENER', 'gen_name': 'GENER',
+                                         'eos': 'MULTI', 'z_precond': 'SOLVR', 'o_precond': 'SOLVR',
+                                         'minc_type': 'MESHM', 'minc_dual': 'MESHM', 'xyz_ntype': 'MESHM',
+                                         'print_block': 'PARAM'}[dev[1]]])
     if k == 'len':
         w = dev[1]
         sec = {'default_incons': 'PARAM', 'timestep': 'PARAM', 'times': 'TIMES', 'selec': 'SELEC', 'gen_rate': 'GENER',
@@ -1487,6 +1566,11 @@ def _chain(M, order, mode, flavour, end_kw):
                      're-read object announces %s, file holds %s' % (list(r1._sections), exp_r1)))
     diffs = t2canon.compare(expect, t2canon.canon(r1), **_cmp_kwargs(mode, 'r1'))
     _diff_viol('read(w1)', diffs, inp, viol, 're-read object differs from the object written')
+    lost = sorted(set(t2canon.unresolved(r1)) - set(t2canon.unresolved(dat)))
+    for kind_, name_ in lost[:6]:
+        viol.append(('C01|read(w1)|name-not-in-own-grid|%s|%s' % (kind_, inp),
+                     're-read object: %s %r is not the name of a block of its own grid (names in the grid are in '
+                     'their repaired spelling, e.g. %r)' % (kind_, name_, _mem_name(t2layout.norm_name(name_)))))
     if r1.end_keyword != end_kw:
         viol.append(('C01|read(w1)|end-keyword|%s->%s|%s' % (end_kw, r1.end_keyword, inp),
                      're-read object has end keyword %r, file ends with %r' % (r1.end_keyword, end_kw)))
